@@ -1090,8 +1090,8 @@ class PtychographyDatasetRaster(DatasetConstraints):
                 if dp_mask is not None:
                     masked_intensity *= dp_mask
                 summed_intensity = masked_intensity.sum()
-                com_measured_r[Rr, Rc] = np.sum(masked_intensity * kcm) / summed_intensity
-                com_measured_c[Rr, Rc] = np.sum(masked_intensity * krm) / summed_intensity
+                com_measured_r[Rr, Rc] = np.sum(masked_intensity * krm) / summed_intensity
+                com_measured_c[Rr, Rc] = np.sum(masked_intensity * kcm) / summed_intensity
 
         if fit_function == "none":
             com_fit_r, com_fit_c = com_measured_r, com_measured_c
